@@ -1,12 +1,17 @@
 #!/bin/bash
-# usage: seedreg.sh  -> for every seeded change: apply to a scratch copy, run the property's quick check, print the exit code
+# usage: seed_regression.sh [K N]  -> for every seeded change (or those whose index i has i % N == K): apply it to a scratch copy of
+# /repo's compmech under /tmp, run the quick check of its property on that copy, print the last line (exit code). Not a registered command.
+K=${1:-0}; N=${2:-1}
 cd /verif
+scr=/tmp/scr_reg_$K
+i=-1
 for d in seeded/*/; do
+  i=$((i+1)); [ $((i % N)) -eq $K ] || continue
   name=$(basename $d); prop=$(python3 -c "import json;print(json.load(open('$d/meta.json'))['property'])")
-  rm -rf /tmp/scr; mkdir -p /tmp/scr; rsync -a --exclude '*.so' --exclude '*.pyc' --exclude 'lib/src/*.o' /repo/compmech /tmp/scr/
-  if ! (cd /tmp/scr && patch -p1 --dry-run < /verif/$d/patch.diff >/dev/null 2>&1); then echo "$name: PATCH-DOES-NOT-APPLY"; continue; fi
-  (cd /tmp/scr && patch -p1 < /verif/$d/patch.diff >/dev/null 2>&1)
-  out=$(CMVERIF_REPO=/tmp/scr timeout 1500 ./check $prop 2>&1 | tail -1 | cut -c1-140)
+  rm -rf $scr; mkdir -p $scr; rsync -a --exclude '*.so' --exclude '*.pyc' --exclude 'lib/src/*.o' /repo/compmech $scr/
+  if ! (cd $scr && patch -p1 --dry-run < /verif/$d/patch.diff >/dev/null 2>&1); then echo "$name: PATCH-DOES-NOT-APPLY"; continue; fi
+  (cd $scr && patch -p1 < /verif/$d/patch.diff >/dev/null 2>&1)
+  out=$(CMVERIF_REPO=$scr timeout 1800 ./check $prop 2>&1 | tail -1 | cut -c1-140)
   echo "$name: $out"
 done
-rm -rf /tmp/scr /verif/replays/*.json
+rm -rf $scr
